@@ -3,9 +3,11 @@
 package agent
 
 import (
+	"github.com/postalsys/muti-metroo/internal/config"
 	"github.com/postalsys/muti-metroo/internal/identity"
 	"github.com/postalsys/muti-metroo/internal/peer"
 	"github.com/postalsys/muti-metroo/internal/routing"
+	"github.com/postalsys/muti-metroo/internal/transport"
 )
 
 // Accessors for the C32 harness (/verif/harness/main/eng_c32.go): a real Agent built by New()
@@ -42,3 +44,19 @@ func (a *Agent) VerifC32Close() {
 		a.flooder.Stop()
 	}
 }
+
+// VerifC32HandleIncoming runs the agent's own accept path (what the listener loop starts for every inbound
+// transport connection).
+func (a *Agent) VerifC32HandleIncoming(pc transport.PeerConn) {
+	a.wg.Add(1)
+	a.handleIncomingConnection(pc)
+}
+
+// VerifC32ConnectToPeer runs the agent's own dial path for one configured peer.
+func (a *Agent) VerifC32ConnectToPeer(cfg config.PeerConfig) {
+	a.wg.Add(1)
+	a.connectToPeer(cfg)
+}
+
+// VerifC32SetTransport registers a transport under a transport type name (the in-memory one of the harness).
+func (a *Agent) VerifC32SetTransport(t transport.TransportType, tr transport.Transport) { a.transports[t] = tr }
